@@ -87,3 +87,75 @@ Definition call_wf (F : nat) (fc : mvec * mcall) : Prop :=
 Definition state_wf (F : nat) (st : option mvec) : Prop :=
   match st with Some v => length v = F | None => True end.
 End MErr.
+
+(* ---- the call with its ARGUMENTS: validation and the three ways of obtaining the values ----
+   vnacal_new_set_m_error(vnp, frequency_vector, frequencies, sigma_nf_vector, sigma_tr_vector).
+   lower env a is the call in the vocabulary above (MClear / MInvalid / MSet values-at-the-calibration-
+   frequencies), computed as the code does, every test in the code's order and all of them before
+   the first write:
+     frequencies < 1 -> -1;  both vectors NULL -> clear;  sigma_nf_vector NULL -> -1;
+     some sigma_nf[i] <= 0 -> -1;  some sigma_tr[i] < 0 -> -1;  !vn_frequencies_valid -> -1;
+     frequency_vector given: not ascending -> -1; vn_frequencies > 0 and (frequency_vector[0] > lower
+     or frequency_vector[frequencies - 1] < upper) -> -1;
+     frequency_vector NULL: frequencies != 1 && frequencies != vn_frequencies -> -1;
+     T16 / U16 and some standard without full S -> -1 (en_full_s_ok: the outcome of that walk, not modelled);
+   then  frequencies == 1: element 0 at every calibration frequency (also when a frequency vector was
+   given);  frequency_vector NULL: element findex;  else the spline through the given points evaluated
+   at the calibration frequencies (interp: C10's model, abstract here).
+   The vectors hold (at least) `frequencies' elements; only those are read.  malloc failure is not
+   modelled.  leb / ltb: <= and < on the reals. *)
+Section Args.
+Variable R : Type.
+Variable r0 : R.
+Variables leb ltb : R -> R -> bool.
+Variable interp : list R -> list R -> R -> R.
+
+Record menv := { en_calf : list R;          (* vn_frequency_vector; vn_frequencies = its length *)
+                 en_fvalid : bool;          (* vn_frequencies_valid *)
+                 en_lo : R; en_hi : R;      (* (1 + VNACAL_F_EXTRAPOLATION) * fmin, (1 - ...) * fmax *)
+                 en_full_s_ok : bool }.
+Record margs := { a_fv : option (list R); a_n : nat; a_nf : option (list R); a_tr : option (list R) }.
+
+Fixpoint ascending (l : list R) : bool :=
+  match l with
+  | a :: r => match r with b :: _ => (ltb a b && ascending r)%bool | [] => true end
+  | [] => true
+  end.
+
+Definition values_at (env : menv) (a : margs) (ys : list R) : list R :=
+  let F := length (en_calf env) in
+  if Nat.eqb (a_n a) 1 then repeat (nth 0 ys r0) F
+  else match a_fv a with
+       | None => map (fun i => nth i ys r0) (seq 0 F)
+       | Some fv => map (interp (firstn (a_n a) fv) (firstn (a_n a) ys)) (en_calf env)
+       end.
+
+Definition grid_rejected (env : menv) (a : margs) : bool :=
+  let F := length (en_calf env) in
+  match a_fv a with
+  | Some fv => (negb (ascending (firstn (a_n a) fv)) ||
+                (negb (Nat.eqb F 0) && (ltb (en_lo env) (nth 0 fv r0) || ltb (nth (a_n a - 1) fv r0) (en_hi env))))%bool
+  | None => (negb (Nat.eqb (a_n a) 1) && negb (Nat.eqb (a_n a) F))%bool
+  end.
+
+Definition lower (env : menv) (a : margs) : mcall R :=
+  if Nat.eqb (a_n a) 0 then MInvalid R else
+  match a_nf a with
+  | None => match a_tr a with None => MClear R | Some _ => MInvalid R end
+  | Some nf =>
+      if existsb (fun v => leb v r0) (firstn (a_n a) nf) then MInvalid R
+      else if match a_tr a with Some t => existsb (fun v => ltb v r0) (firstn (a_n a) t) | None => false end then MInvalid R
+      else if negb (en_fvalid env) then MInvalid R
+      else if grid_rejected env a then MInvalid R
+      else if negb (en_full_s_ok env) then MInvalid R
+      else MSet R (values_at env a nf) (option_map (values_at env a) (a_tr a))
+  end.
+
+Definition set_m_error_args (reinit : bool) (env : menv) (fresh : mvec R) (st : option (mvec R)) (a : margs) :=
+  set_m_error R r0 reinit fresh st (lower env a).
+Definition run_args (reinit : bool) (env : menv) (st : option (mvec R)) (h : list (mvec R * margs)) : option (mvec R) :=
+  fold_left (fun s fa => set_m_error_args reinit env (fst fa) s (snd fa)) h st.
+(* the return value of every call of a history: true = 0, false = -1 *)
+Definition returns (env : menv) (h : list (mvec R * margs)) : list bool :=
+  map (fun fa => match lower env (snd fa) with MInvalid _ => false | _ => true end) h.
+End Args.
